@@ -164,11 +164,12 @@ Inductive pc :=
    t_cur:   the tuple the emission in flight is directed at (None: through a slot the client never obtained / wrong arity);
    t_acct:  tally, by tuple, of the weight of this client's emissions that did not land in a series. *)
 Record thread := { t_pc : pc; t_prog : list op; t_slots : list href; t_out : list res (* newest first *);
-                   t_asked : list tuple; t_cur : option tuple; t_acct : list (tuple * Z) }.
+                   t_asked : list tuple; t_cur : option tuple; t_acct : list (tuple * Z);
+                   t_vacct : list (tuple * Z) (* the same tally in value units: the deltas themselves *) }.
 Definition seq_thread (o : op) (slots : list href) : thread :=
-  {| t_pc := PIdle; t_prog := [o]; t_slots := slots; t_out := []; t_asked := []; t_cur := None; t_acct := [] |}.
+  {| t_pc := PIdle; t_prog := [o]; t_slots := slots; t_out := []; t_asked := []; t_cur := None; t_acct := []; t_vacct := [] |}.
 Definition thread0 (prog : list op) : thread :=
-  {| t_pc := PIdle; t_prog := prog; t_slots := []; t_out := []; t_asked := []; t_cur := None; t_acct := [] |}.
+  {| t_pc := PIdle; t_prog := prog; t_slots := []; t_out := []; t_asked := []; t_cur := None; t_acct := []; t_vacct := [] |}.
 
 (* ------------------------------------------------------------------ sync.Map *)
 Fixpoint map_load (m : list (N * nat)) (k : N) : option nat :=
@@ -228,19 +229,20 @@ Definition publish (c : cfg) (s : shared) (t : tuple) : shared * nat :=
 Definition finish (th : thread) (r : res) : thread :=
   {| t_pc := PIdle; t_prog := t_prog th;
      t_slots := match r with ResH h => t_slots th ++ [h] | _ => t_slots th end;
-     t_out := r :: t_out th; t_asked := t_asked th; t_cur := t_cur th; t_acct := t_acct th |}.
+     t_out := r :: t_out th; t_asked := t_asked th; t_cur := t_cur th; t_acct := t_acct th; t_vacct := t_vacct th |}.
 Definition goto (th : thread) (p : pc) : thread :=
-  {| t_pc := p; t_prog := t_prog th; t_slots := t_slots th; t_out := t_out th; t_asked := t_asked th; t_cur := t_cur th; t_acct := t_acct th |}.
+  {| t_pc := p; t_prog := t_prog th; t_slots := t_slots th; t_out := t_out th; t_asked := t_asked th; t_cur := t_cur th; t_acct := t_acct th; t_vacct := t_vacct th |}.
 Definition pop (th : thread) (rest : list op) : thread :=
-  {| t_pc := t_pc th; t_prog := rest; t_slots := t_slots th; t_out := t_out th; t_asked := t_asked th; t_cur := t_cur th; t_acct := t_acct th |}.
+  {| t_pc := t_pc th; t_prog := rest; t_slots := t_slots th; t_out := t_out th; t_asked := t_asked th; t_cur := t_cur th; t_acct := t_acct th; t_vacct := t_vacct th |}.
 Definition ask (th : thread) (t : tuple) : thread :=
-  {| t_pc := t_pc th; t_prog := t_prog th; t_slots := t_slots th; t_out := t_out th; t_asked := t_asked th ++ [t]; t_cur := t_cur th; t_acct := t_acct th |}.
+  {| t_pc := t_pc th; t_prog := t_prog th; t_slots := t_slots th; t_out := t_out th; t_asked := t_asked th ++ [t]; t_cur := t_cur th; t_acct := t_acct th; t_vacct := t_vacct th |}.
 Definition aim (th : thread) (o : option tuple) : thread :=
-  {| t_pc := t_pc th; t_prog := t_prog th; t_slots := t_slots th; t_out := t_out th; t_asked := t_asked th; t_cur := o; t_acct := t_acct th |}.
-Definition tally (th : thread) (w : Z) : thread :=
+  {| t_pc := t_pc th; t_prog := t_prog th; t_slots := t_slots th; t_out := t_out th; t_asked := t_asked th; t_cur := o; t_acct := t_acct th; t_vacct := t_vacct th |}.
+Definition tally (th : thread) (w d : Z) : thread :=
   {| t_pc := t_pc th; t_prog := t_prog th; t_slots := t_slots th; t_out := t_out th; t_asked := t_asked th;
      t_cur := t_cur th;
-     t_acct := match t_cur th with Some t => (t, w) :: t_acct th | None => t_acct th end |}.
+     t_acct := match t_cur th with Some t => (t, w) :: t_acct th | None => t_acct th end;
+     t_vacct := match t_cur th with Some t => (t, d) :: t_vacct th | None => t_vacct th end |}.
 
 Definition capped (c : cfg) : bool := 0 <? c_cap c.
 
@@ -263,7 +265,7 @@ Definition start_op (c : cfg) (s : shared) (th : thread) (o : op) : shared * thr
       let th := aim th (nth_error (t_asked th) slot) in
       match nth_error (t_slots th) slot with
       | None => (add_noop s (weight (c_kind c) d), finish th ResU)     (* no such handle: harness skips *)
-      | Some RTomb => (add_drops s (weight (c_kind c) d), finish (tally th (weight (c_kind c) d)) ResU)    (* isTombstone is immutable *)
+      | Some RTomb => (add_drops s (weight (c_kind c) d), finish (tally th (weight (c_kind c) d) d) ResU)    (* isTombstone is immutable *)
       | Some (RH id) =>                                     (* h.stale.Load() *)
           match get_handle s id with
           | Some h => if h_stale h then (s, goto th (PES d)) else (s, goto th (PE1 id m d))
@@ -368,8 +370,8 @@ Definition tstep (c : cfg) (s : shared) (th : thread) : shared * thread :=
       | Some _ => (set_hs s (upd_nth (hs s) id (emit_into c m d)), finish th ResU)
       | None => (add_noop s (weight (c_kind c) d), finish th ResU)
       end
-  | PES d => (add_stales s (weight (c_kind c) d), finish (tally th (weight (c_kind c) d)) ResU)
-  | PTU d => (add_unknown s (weight (c_kind c) d), finish (tally th (weight (c_kind c) d)) ResU)
+  | PES d => (add_stales s (weight (c_kind c) d), finish (tally th (weight (c_kind c) d) d) ResU)
+  | PTU d => (add_unknown s (weight (c_kind c) d), finish (tally th (weight (c_kind c) d) d) ResU)
   end.
 
 (* ------------------------------------------------------------------ sequential model *)
@@ -527,37 +529,71 @@ Definition rdone_all (x : rsys) : bool :=
 
 (* ------------------------------------------------------------------ subscribers, tick and snapshot as threads *)
 (* The extended machine runs the metric clients of [tstep] UNCHANGED next to auxiliary threads that subscribe,
-   unsubscribe, tick, snapshot and drain.  A client that has just landed an emission in a series then performs the
-   three atomic steps of markDirty (subscriberCount.Load / dirty.Load / dirty.CompareAndSwap) before it goes on.
-   Auxiliary steps have no access to writing the metric state (by the type of [xstep_aux]). *)
-Record sshared := { ss_subs : list sub; ss_dirty : bool; ss_nsubs : Z }.
-Definition sshared0 : sshared := {| ss_subs := []; ss_dirty := false; ss_nsubs := 0 |}.
+   unsubscribe, tick, snapshot and drain.
+   * A client that has just landed an emission in a series performs the three atomic steps of markDirty
+     (subscriberCount.Load / dirty.Load / dirty.CompareAndSwap) before it goes on.
+   * A client whose WithLabelValues returned the tombstone went through tombstoneHandle = sync.Once.Do: the first caller
+     runs the initialiser (O2) while later callers WAIT at O1 until it is done; afterwards Do is a single atomic load.
+   * Subscribe -> maybeStartTick and Unsubscribe -> maybeStopTick take the registry mutex tickMu: acquiring it is a step
+     that is DISABLED while another thread holds it.
+   * series.Range / metrics.Range walk the LIVE map one entry per step in key order: the walker remembers the last key it
+     visited; an entry inserted behind the cursor is not seen, one inserted ahead is, one deleted ahead is skipped.
+   Auxiliary steps cannot write the metric state (type of [xstep_aux]); clients touch no channel and no mutex. *)
+Record sshared := { ss_subs : list sub; ss_dirty : bool; ss_nsubs : Z;
+                    ss_mu : bool;        (* tickMu is held *)
+                    ss_running : bool;   (* tickRunning *)
+                    ss_once : nat }.     (* tombstoneOnce: 0 = fresh, 1 = initialiser running, 2 = done *)
+Definition sshared0 : sshared :=
+  {| ss_subs := []; ss_dirty := false; ss_nsubs := 0; ss_mu := false; ss_running := false; ss_once := 0 |}.
 (* how Subscription.publish sends: the code uses select/default; BlockingSend is the hypothetical `ch <- u` *)
 Inductive sendmode := SelectDefault | BlockingSend.
-Inductive mpc := MNone | M1 | M2 | M3.
+Inductive mpc := MNone | M1 | M2 | M3 | O1 | O2.
 Inductive sop := SSubscribe (buf : Z) | SUnsubscribe (k : nat) | STick | SSnapshot | SDrain (k n : nat).
 Inductive spc :=
 | SIdle
 | SSub1                                   (* subscriberCount.Add(1), after subscribers.Store *)
+| SSub2                                   (* maybeStartTick: tickMu.Lock() *)
+| SSub3                                   (* under the lock: if !tickRunning { tickRunning = true; go tickLoop } *)
+| SSub4                                   (* tickMu.Unlock() *)
 | SUn1 (k : nat)                          (* subscribers.Delete *)
 | SUn2                                    (* subscriberCount.Add(-1) *)
-| STk1                                    (* series.Range starts: which series exist now *)
-| STk2 (ids : list nat) (n : nat)         (* load the value of one series; n samples collected so far *)
+| SUn3                                    (* maybeStopTick: subscriberCount.Load() != 0 ? *)
+| SUn4                                    (* tickMu.Lock() *)
+| SUn5                                    (* under the lock: re-check, tickRunning = false *)
+| SUn6                                    (* tickMu.Unlock() (then cancel()) *)
+| STk2 (cur : option N) (n : nat)         (* series.Range: visit the next live entry after key cur; n samples so far *)
 | STk3 (n : nat)                          (* subscribers.Range: which subscribers exist now *)
 | STk4 (work : list nat)                  (* one Subscription.publish, to subscriber [hd work] *)
-| SSn2 (ids : list nat) (acc : list (tuple * hval)).   (* AppendSnapshot: load the value of one series *)
+| SSn2 (cur : option N) (acc : list (tuple * hval)).   (* AppendSnapshot: visit the next live entry *)
 Record auxthread := { a_pc : spc; a_prog : list sop; a_snaps : list (list (tuple * hval)) (* newest first *) }.
 Definition auxthread0 (p : list sop) : auxthread := {| a_pc := SIdle; a_prog := p; a_snaps := [] |}.
 Definition afinished (a : auxthread) : bool := match a_pc a, a_prog a with SIdle, [] => true | _, _ => false end.
 
-Definition set_subs (ss : sshared) (l : list sub) : sshared := {| ss_subs := l; ss_dirty := ss_dirty ss; ss_nsubs := ss_nsubs ss |}.
-Definition set_dirty (ss : sshared) (b : bool) : sshared := {| ss_subs := ss_subs ss; ss_dirty := b; ss_nsubs := ss_nsubs ss |}.
-Definition set_nsubs (ss : sshared) (n : Z) : sshared := {| ss_subs := ss_subs ss; ss_dirty := ss_dirty ss; ss_nsubs := n |}.
+Definition ss_with (ss : sshared) (subs : list sub) (dirty : bool) (n : Z) (mu running : bool) (once : nat) : sshared :=
+  {| ss_subs := subs; ss_dirty := dirty; ss_nsubs := n; ss_mu := mu; ss_running := running; ss_once := once |}.
+Definition set_subs (ss : sshared) (l : list sub) := ss_with ss l (ss_dirty ss) (ss_nsubs ss) (ss_mu ss) (ss_running ss) (ss_once ss).
+Definition set_dirty (ss : sshared) (b : bool) := ss_with ss (ss_subs ss) b (ss_nsubs ss) (ss_mu ss) (ss_running ss) (ss_once ss).
+Definition set_nsubs (ss : sshared) (n : Z) := ss_with ss (ss_subs ss) (ss_dirty ss) n (ss_mu ss) (ss_running ss) (ss_once ss).
+Definition set_mu (ss : sshared) (b : bool) := ss_with ss (ss_subs ss) (ss_dirty ss) (ss_nsubs ss) b (ss_running ss) (ss_once ss).
+Definition set_running (ss : sshared) (b : bool) := ss_with ss (ss_subs ss) (ss_dirty ss) (ss_nsubs ss) (ss_mu ss) b (ss_once ss).
+Definition set_once (ss : sshared) (n : nat) := ss_with ss (ss_subs ss) (ss_dirty ss) (ss_nsubs ss) (ss_mu ss) (ss_running ss) n.
 Definition agoto (a : auxthread) (p : spc) : auxthread := {| a_pc := p; a_prog := a_prog a; a_snaps := a_snaps a |}.
 
 Definition sub_full (b : sub) : bool := negb (sb_len b <? sb_cap b)%nat.
 Definition live_sub_indices (l : list sub) : list nat :=
   flat_map (fun ib => if sb_unsub (snd ib) then [] else [fst ib]) (combine (seq 0 (length l)) l).
+
+(* the live entry with the smallest key above the cursor *)
+Definition above (cur : option N) (k : N) : bool := match cur with None => true | Some c => N.ltb c k end.
+Fixpoint next_entry (m : list (N * nat)) (cur : option N) (best : option (N * nat)) : option (N * nat) :=
+  match m with
+  | [] => best
+  | (k, id) :: r =>
+      next_entry r cur (if above cur k then match best with
+                                            | Some (kb, _) => if N.ltb k kb then Some (k, id) else best
+                                            | None => Some (k, id)
+                                            end else best)
+  end.
 
 (* one atomic step of an auxiliary thread; None = the step is not enabled (the thread is blocked) *)
 Definition xstep_aux (mode : sendmode) (s : shared) (ss : sshared) (a : auxthread) : option (sshared * auxthread) :=
@@ -576,8 +612,8 @@ Definition xstep_aux (mode : sendmode) (s : shared) (ss : sshared) (a : auxthrea
               | None => Some (ss, a)
               end
           | STick =>                               (* swapDirty *)
-              if ss_dirty ss then Some (set_dirty ss false, agoto a STk1) else Some (ss, a)
-          | SSnapshot => Some (ss, agoto a (SSn2 (map snd (smap s)) []))
+              if ss_dirty ss then Some (set_dirty ss false, agoto a (STk2 None 0)) else Some (ss, a)
+          | SSnapshot => Some (ss, agoto a (SSn2 None []))
           | SDrain k n =>
               match nth_error (ss_subs ss) k with
               | Some b => Some (set_subs ss (upd_nth (ss_subs ss) k (fun b => fst (sub_drain n b))), a)
@@ -585,12 +621,21 @@ Definition xstep_aux (mode : sendmode) (s : shared) (ss : sshared) (a : auxthrea
               end
           end
       end
-  | SSub1 => Some (set_nsubs ss (ss_nsubs ss + 1), agoto a SIdle)
+  | SSub1 => Some (set_nsubs ss (ss_nsubs ss + 1), agoto a SSub2)
+  | SSub2 => if ss_mu ss then None else Some (set_mu ss true, agoto a SSub3)
+  | SSub3 => Some (set_running ss true, agoto a SSub4)
+  | SSub4 => Some (set_mu ss false, agoto a SIdle)
   | SUn1 k => Some (ss, agoto a SUn2)
-  | SUn2 => Some (set_nsubs ss (ss_nsubs ss - 1), agoto a SIdle)
-  | STk1 => Some (ss, agoto a (STk2 (map snd (smap s)) 0))
-  | STk2 [] n => Some (ss, agoto a (STk3 n))
-  | STk2 (id :: r) n => Some (ss, agoto a (STk2 r (match get_handle s id with Some _ => S n | None => n end)))
+  | SUn2 => Some (set_nsubs ss (ss_nsubs ss - 1), agoto a SUn3)
+  | SUn3 => if ss_nsubs ss =? 0 then Some (ss, agoto a SUn4) else Some (ss, agoto a SIdle)
+  | SUn4 => if ss_mu ss then None else Some (set_mu ss true, agoto a SUn5)
+  | SUn5 => Some ((if ss_running ss && (ss_nsubs ss =? 0) then set_running ss false else ss), agoto a SUn6)
+  | SUn6 => Some (set_mu ss false, agoto a SIdle)
+  | STk2 cur n =>
+      match next_entry (smap s) cur None with
+      | Some (k, id) => Some (ss, agoto a (STk2 (Some k) (match get_handle s id with Some _ => S n | None => n end)))
+      | None => Some (ss, agoto a (STk3 n))
+      end
   | STk3 n => Some (ss, agoto a (STk4 (flat_map (fun _ => live_sub_indices (ss_subs ss)) (seq 0 n))))
   | STk4 [] => Some (ss, agoto a SIdle)
   | STk4 (k :: r) =>
@@ -603,23 +648,35 @@ Definition xstep_aux (mode : sendmode) (s : shared) (ss : sshared) (a : auxthrea
           end
       | None => Some (ss, agoto a (STk4 r))
       end
-  | SSn2 [] acc => Some (ss, {| a_pc := SIdle; a_prog := a_prog a; a_snaps := rev acc :: a_snaps a |})
-  | SSn2 (id :: r) acc =>
-      Some (ss, agoto a (SSn2 r (match get_handle s id with Some h => (h_tuple h, h_val h) :: acc | None => acc end)))
+  | SSn2 cur acc =>
+      match next_entry (smap s) cur None with
+      | Some (k, id) =>
+          Some (ss, agoto a (SSn2 (Some k) (match get_handle s id with Some h => (h_tuple h, h_val h) :: acc | None => acc end)))
+      | None => Some (ss, {| a_pc := SIdle; a_prog := a_prog a; a_snaps := rev acc :: a_snaps a |})
+      end
   end.
 
-(* a metric client with its markDirty continuation *)
+(* a metric client with its markDirty / tombstoneOnce continuation *)
 Definition lands (s : shared) (th : thread) : bool :=
   match t_pc th with PE1 id _ _ => match get_handle s id with Some _ => true | None => false end | _ => false end.
-Definition xstep_client (c : cfg) (s : shared) (ss : sshared) (cl : thread * mpc) : shared * sshared * (thread * mpc) :=
+Definition got_tomb (th th' : thread) : bool :=
+  (length (t_out th) <? length (t_out th'))%nat && match t_out th' with ResH RTomb :: _ => true | _ => false end.
+Definition xstep_client (c : cfg) (s : shared) (ss : sshared) (cl : thread * mpc) : option (shared * sshared * (thread * mpc)) :=
   let (th, m) := cl in
   match m with
-  | MNone => if finished th then (s, ss, cl) else
+  | MNone => if finished th then Some (s, ss, cl) else
              let l := lands s th in
-             let (s', th') := tstep c s th in (s', ss, (th', if l then M1 else MNone))
-  | M1 => (s, ss, (th, if ss_nsubs ss =? 0 then MNone else M2))          (* registry.subscriberCount.Load() == 0 *)
-  | M2 => (s, ss, (th, if ss_dirty ss then MNone else M3))               (* dirty.Load() *)
-  | M3 => (s, set_dirty ss true, (th, MNone))                             (* dirty.CompareAndSwap(false, true) *)
+             let (s', th') := tstep c s th in
+             Some (s', ss, (th', if l then M1 else if got_tomb th th' then O1 else MNone))
+  | M1 => Some (s, ss, (th, if ss_nsubs ss =? 0 then MNone else M2))          (* registry.subscriberCount.Load() == 0 *)
+  | M2 => Some (s, ss, (th, if ss_dirty ss then MNone else M3))               (* dirty.Load() *)
+  | M3 => Some (s, set_dirty ss true, (th, MNone))                            (* dirty.CompareAndSwap(false, true) *)
+  | O1 => match ss_once ss with                                               (* tombstoneOnce.Do *)
+          | O => Some (s, set_once ss 1, (th, O2))                            (* first caller: run the initialiser *)
+          | S O => None                                                       (* somebody else is running it: wait *)
+          | _ => Some (s, ss, (th, MNone))                                    (* done: a single atomic load *)
+          end
+  | O2 => Some (s, set_once ss 2, (th, MNone))
   end.
 
 Record xsys := { x_sh : shared; x_ss : sshared; x_cl : list (thread * mpc); x_aux : list auxthread }.
@@ -630,8 +687,10 @@ Definition xsys_step (c : cfg) (mode : sendmode) (x : xsys) (e : bool * nat) : x
   let (is_client, i) := e in
   if is_client then
     match nth_error (x_cl x) i with
-    | Some cl => let '(s', ss', cl') := xstep_client c (x_sh x) (x_ss x) cl in
-                 {| x_sh := s'; x_ss := ss'; x_cl := upd_nth (x_cl x) i (fun _ => cl'); x_aux := x_aux x |}
+    | Some cl => match xstep_client c (x_sh x) (x_ss x) cl with
+                 | Some (s', ss', cl') => {| x_sh := s'; x_ss := ss'; x_cl := upd_nth (x_cl x) i (fun _ => cl'); x_aux := x_aux x |}
+                 | None => x
+                 end
     | None => x
     end
   else
